@@ -95,6 +95,7 @@ theorem Cfg.init_below (cfg : Cfg F) (ch : PChain F) : (cfg.init ch).below = ch.
   | leaf c rest ih => simp [Cfg.init, ih, compInit_below]
   | scope body rest _ ih => simp [Cfg.init, ih]
   | loop n body rest ihb ih => simp [Cfg.init, ih, ihb]
+  | branch b tb eb rest iht ihe ih => simp [Cfg.init, ih, ihe, iht]
 
 section Dec2
 
@@ -127,6 +128,17 @@ theorem Cfg.init_sees (eqv : Param F → Param F → Bool) (heq : ∀ a b, eqv a
     · exact Or.inr (ihb _ (fun c hcm => hc c (Or.inl hcm)) (Or.inl h))
     · exact Or.inl h
     · exact Or.inr (ihb _ (fun c hcm => hc c (Or.inl hcm)) (Or.inr h))
+  | branch b tb eb rest iht ihe ih =>
+    simp only [Cfg.level, List.mem_append] at hc h
+    simp only [Cfg.init]
+    have hct : ∀ c ∈ tb.level, compatible eqv c d = true := fun c hcm => hc c (Or.inl hcm)
+    have hce : ∀ c ∈ eb.level, compatible eqv c d = true := fun c hcm => hc c (Or.inr (Or.inl hcm))
+    apply ih _ (fun c hcm => hc c (Or.inr (Or.inr hcm)))
+    rcases h with (h | h | h) | h
+    · exact Or.inr (ihe _ hce (Or.inr (iht _ hct (Or.inl h))))
+    · exact Or.inr (ihe _ hce (Or.inl h))
+    · exact Or.inl h
+    · exact Or.inr (ihe _ hce (Or.inr (iht _ hct (Or.inr h))))
 
 theorem levelConsistent_iff (eqv : Param F → Param F → Bool) (l : List (PComp F)) :
     levelConsistent eqv l = true ↔ ∀ c ∈ l, ∀ d ∈ l, compatible eqv c d = true := by
@@ -166,6 +178,12 @@ theorem Cfg.exec_chain (cfg : Cfg F) (st : RunSt F) : (cfg.exec st).chain = st.c
     simp only [Cfg.exec]
     rw [ih]
     exact iterate_inv body.exec (fun s => s.chain = st.chain) (fun s hs => (ihb s).trans hs) n st rfl
+  | branch b tb eb rest iht ihe ih =>
+    simp only [Cfg.exec]
+    rw [ih]
+    cases b
+    · exact ihe st
+    · exact iht st
 
 end Exec
 
@@ -235,6 +253,20 @@ theorem Cfg.exec_trace_own (eqv : Param F → Param F → Bool) (heq : ∀ a b, 
     rcases ih _ hc.2 (by rw [hP.1]; exact fun d hd => hl d (Or.inr hd)) o ho with h | h
     · exact hP.2 o h
     · exact Or.inr h
+  | branch b tb eb rest iht ihe ih =>
+    simp only [Cfg.level, List.mem_append] at hl
+    simp only [Cfg.consistent, Bool.and_eq_true] at hc
+    intro o ho
+    simp only [Cfg.exec] at ho
+    cases b
+    · simp only [Bool.false_eq_true, if_false] at ho
+      rcases ih _ hc.2.2 (by rw [Cfg.exec_chain]; exact fun d hd => hl d (Or.inr (Or.inr hd))) o ho with h | h
+      · exact ihe st hc.2.1 (fun d hd => hl d (Or.inr (Or.inl hd))) o h
+      · exact Or.inr h
+    · simp only [if_true] at ho
+      rcases ih _ hc.2.2 (by rw [Cfg.exec_chain]; exact fun d hd => hl d (Or.inr (Or.inr hd))) o ho with h | h
+      · exact iht st hc.1 (fun d hd => hl d (Or.inl hd)) o h
+      · exact Or.inr h
 
 /-- `Configuration::run` of a well-formed configuration on ANY state. -/
 theorem Cfg.run_own (eqv : Param F → Param F → Bool) (heq : ∀ a b, eqv a b = true → a = b)
@@ -280,6 +312,7 @@ theorem Cfg.exec_dead (cfg : Cfg F) (st : RunSt F) (h : st.live = false) : cfg.e
     simp [Cfg.exec, this, ih st h]
   | scope body rest _ ih => simp [Cfg.exec, h]
   | loop n body rest ihb ih => simp [Cfg.exec, iterate_fix body.exec st (ihb st h) n, ih st h]
+  | branch b tb eb rest iht ihe ih => simp [Cfg.exec, iht st h, ihe st h, ih st h]
 
 theorem Cfg.live_of_exec_live (cfg : Cfg F) (st : RunSt F) (h : (cfg.exec st).live = true) : st.live = true := by
   cases hl : st.live with
@@ -334,6 +367,17 @@ theorem Cfg.exec_comps (cfg : Cfg F) (st : RunSt F) (h : (cfg.exec st).live = tr
         simp [List.replicate_succ]
     rw [key n st hi]
     simp [Cfg.unroll]
+  | branch b tb eb rest iht ihe ih =>
+    simp only [Cfg.exec] at h ⊢
+    have hi := Cfg.live_of_exec_live rest _ h
+    rw [ih _ h]
+    cases b
+    · simp only [Bool.false_eq_true, if_false] at hi ⊢
+      rw [ihe _ hi]
+      simp [Cfg.unroll]
+    · simp only [if_true] at hi ⊢
+      rw [iht _ hi]
+      simp [Cfg.unroll]
 
 theorem Cfg.run_comps (cfg : Cfg F) (ch : PChain F) (h : (cfg.run ch).live = true) :
     (cfg.run ch).trace.map (·.comp) = cfg.unroll := by
